@@ -66,3 +66,36 @@ CHECKS["C19"] = dict(
     text="For 11 reps x several units and every bit pattern (NaN, inf, -0.0 included): q op ZERO / ZERO op q equal x op 0 / 0 op x, q +/- ZERO equals q at value level, "
          "Quantity(ZERO), T(ZERO) and chrono duration(ZERO) are 0; rejection for QuantityPoint observed as closed trait booleans.",
     note=TB + "; clang only; 'never accepted where a point is required' is observed only through is_constructible/is_convertible/is_assignable booleans.")
+CHECKS["C02"] = dict(
+    category="model_checking",
+    technique="bounded symbolic execution of clang LLVM IR of conversion kernels between generated unit expressions, SMT (z3/cvc5), against an independent exact unit model",
+    text="For seeded generated pairs of unit expressions (products, quotients, rational powers, roots, magnitudes, prefixes; five spellings) the int64 conversion kernel is proved for ALL x to be exactly "
+         "x*N/D with the MODEL's N, D; the double kernel is proved for ALL x to be a single IEEE multiply/divide by a constant that is within 4 ulp of the model's exact ratio; ratio-1 pairs are the identity; "
+         "equivalence / same-dimension / type-identity / is_integer / is_rational are closed booleans compared with the model.",
+    note=TB + "; unit model written from SI/NIST definitions; expression trees enumerated (seeded); canonical type identity observed only as closed booleans; documented Hertz/Becquerel-style exclusions applied.")
+CHECKS["C07"] = dict(
+    category="model_checking",
+    technique="bounded symbolic execution of clang LLVM IR of to-common-unit kernels, SMT (z3/cvc5), against an independent gcd-of-rationals model; closed type-identity booleans",
+    text="For seeded lists (2-4) of same-dimension units: each to-common-unit kernel is proved for ALL x to be x*m_i (no division, trap-free when it fits) and the m_i must equal the model's U_i/gcd(U_1..U_k) "
+         "(positive, jointly coprime); the common unit is an input exactly when the model says so; CommonUnitT is the identical type under permutations/repetitions and nested forms are quantity-equivalent "
+         "(closed booleans); irrational lists: symmetry booleans only.",
+    note=TB + "; lists enumerated (seeded); type identity is a compile-time boolean.")
+CHECKS["C12"] = dict(
+    category="model_checking",
+    technique="bounded symbolic execution of clang LLVM IR (unsigned-wrap traps on), SMT: integer emission with quotient/remainder abstraction (z3/cvc5 NIA) and bit-vector emission at reduced width",
+    text="At full 64-bit width and for ALL inputs under the documented preconditions: add_mod, sub_mod, half_mod_odd return the exact residue with no intermediate wrap; decompose(n) = (s, d) with n == d<<s, d odd "
+         "(unwind 64 + unwinding assertion); mul_mod: one inductive step (recursive call replaced by its contract): call-site precondition, strict decrease, no wrap/div-by-zero, result < n, result formula, "
+         "and a*b == result + Q*n with a witness Q; the same step bit-precisely at W=5/6 bits without hints. Factorisation/primality read-outs for adversarial numbers are closed compile-time facts.",
+    note=TB + "; primality/factor-finder exactness for every 64-bit n, pow_mod, gcd, jacobi, Lucas are NOT claimed (outside bounded symbolic execution); reduced-width results are about the re-interpreted IR.")
+CHECKS["C14"] = dict(
+    category="translation_validation",
+    technique="solver equivalence (SMT over clang LLVM IR) of Au product/quotient/power kernels with raw-operator / std-function reference kernels in the same TU; closed unit facts vs model",
+    text="For reps x unit pairs and ALL operand values: q*q, q/q, s*q, s/q, unblock_int_div forms, int_pow<k>, sqrt, cbrt, as_raw_number equal the raw operator / libm call on the stored values (same bits or both NaN, "
+         "same trap condition); int_pow on 8/16-bit reps equals x^k whenever x^k is representable; resulting units and collapse-to-raw-number are closed booleans vs a hand-written model table.",
+    note=TB + "; libm functions are uninterpreted (congruence only); rejection clauses (integer-division guard, as_raw_number on dimensioned input) observed as negative compile probes only.")
+CHECKS["C17"] = dict(
+    category="translation_validation",
+    technique="solver equivalence (SMT over clang LLVM IR) of Au chrono-interop kernels with pure std::chrono reference kernels in the same TU; closed mapping facts vs model",
+    text="For Rep in {int32,int64,float,double} x 9 periods and ALL counts: duration -> quantity -> duration is the identity bit-for-bit (implicit and as_chrono_duration), as_quantity has the count in seconds x Period; "
+         "mixed duration/quantity comparisons, + and - equal the std::chrono computation whenever that computation does not trap (32-bit: operands in range); is_convertible<duration,Q> equals that of the corresponding quantity and the policy model.",
+    note=TB + "; libstdc++ chrono as shipped; NaN counts excluded for <= and >= (libstdc++ defines a<=b as !(b<a)); periods enumerated.")
